@@ -480,8 +480,8 @@ pub fn h_try_map<M: VMode, Er: VEr>() {
             }
         } else {
             vassert!(SecSpec::pre(&s0).prefix_of(&s, Er::ZST), "C05/try_map.failure-keeps-earlier-emissions");
+            vassert!(s.alt.is_some(), "C20/try_map.failure-leaves-pending-error");
             if !Er::ZST {
-                vassert!(s.alt.is_some(), "C20/try_map.failure-leaves-pending-error");
                 if a.ok {
                     vcover!(true, "try_map: rejected by mapper");
                     // the user's error is offered at the start of the rejected match, by priority against the
